@@ -12,6 +12,8 @@ import (
 
 func init() {
 	register("C16", func(c *core.Ctx, tier string) {
+		errPolarity(c, "C16.4b", "transports")
+		pollingEffects(c, "C16.8")
 		c16Encoded(c)
 		c16Headers(c)
 		c16Gate(c)
